@@ -337,6 +337,10 @@ def run_case(case, ctx):
     if s0 != s1:
         ctx.violation("open-modified-files", f"{desc}: outcome {'ok' if is_ok(out) else out[1]}, directory "
                       f"changed: {common.snap_diff(s0, s1)}", {"phase": "reopen", "outcome": expect})
+    # (a configuration file that lost part of its default algorithm list may leave the store unable to name its own
+    #  algorithm: what such a store serves is not judged - only that opening it writes nothing and stays repeatable)
+    if is_ok(out) and yaml_variant == "tail-lost":
+        stored = {}
     if is_ok(out):
         for pid, data in stored.items():
             o = common.retrieve_bytes(out[1], pid)
